@@ -281,7 +281,9 @@ func classifyMetadata(md []byte) (class string, list []chanID) {
 
 // ---- metadata grammar ------------------------------------------------------------------------------
 
-var c19Channels = []chanID{{"transfer", "channel-0"}, {"transfer", "channel-1"}, {"transfer", "channel-2"}, {"nft-transfer", "channel-3"}, {"transfer", "channel-4"}}
+// channel ids are unique per port only: channel-0 and channel-1 exist under two ports
+var c19Channels = []chanID{{"transfer", "channel-0"}, {"transfer", "channel-1"}, {"transfer", "channel-2"}, {"nft-transfer", "channel-3"}, {"transfer", "channel-4"},
+	{"nft-transfer", "channel-0"}, {"icqhost", "channel-1"}}
 
 func genMetadata(rt *rapid.T) (string, []byte) {
 	el := func(c chanID) string {
